@@ -485,3 +485,270 @@ theorem skipSpace_putBody (b : Str) (h : ∀ c, b.head? = some c → isSpace c =
       simp [putBody, ha, skipSpace, List.dropWhile_cons, hc, hsp]
 
 end SwimVerif.Envelope
+
+/-! ### the reader never panics (once the two panic paths are closed in the code: generated flags) -/
+namespace SwimVerif.Envelope
+open SwimVerif.Generated.Env
+
+section NoPanic
+variable (h1 : unescSurrogatePanics = false) (h2 : textTokenIncompletePanics = false)
+include h1
+
+theorem unescStep_no_panic (st : EscSt) (c : Char) (cause : Cause) : unescStep st c ≠ .panic cause := by
+  unfold unescStep
+  cases st <;> simp only <;> (repeat' split) <;> simp_all
+
+theorem unescRun_no_panic (st : EscSt) (s : Str) (cause : Cause) : unescRun st s ≠ .panic cause := by
+  induction s generalizing st cause with
+  | nil => simp [unescRun]
+  | cons c cs ih =>
+    unfold unescRun
+    cases hs : unescStep st c with
+    | failed => simp
+    | panic c' => exact absurd hs (unescStep_no_panic h1 st c c')
+    | next st' o =>
+      cases o with
+      | none => simpa using ih st' cause
+      | some o =>
+        simp only
+        cases hr : unescRun st' cs with
+        | ok r => simp
+        | fail => simp
+        | panic c' => exact absurd hr (ih st' c')
+        | unsup => simp
+
+theorem resolveEscapes_no_panic (s : Str) (cause : Cause) : resolveEscapes s ≠ .panic cause := by
+  unfold resolveEscapes
+  split
+  · exact unescRun_no_panic h1 _ _ _
+  · simp
+
+theorem lexString_no_panic (s : Str) (cause : Cause) : lexString s ≠ .panic cause := by
+  unfold lexString
+  cases s with
+  | nil => simp
+  | cons c cs =>
+    simp only
+    split
+    · cases hsc : scanStr false cs with
+      | none => simp
+      | some r =>
+        simp only
+        cases hr : resolveEscapes r.1 with
+        | panic c' => exact absurd hr (resolveEscapes_no_panic h1 _ _)
+        | ok u => simp
+        | fail => simp
+        | unsup => simp
+    · simp
+
+theorem pName_no_panic (s : Str) (cause : Cause) : pName s ≠ .panic cause := by
+  unfold pName
+  cases lexIdent s with
+  | some r => simp
+  | none =>
+    simp only
+    cases hr : lexString s with
+    | panic c' => exact absurd hr (lexString_no_panic h1 _ _)
+    | ok u => simp
+    | fail => simp
+    | unsup => simp
+
+theorem pValue_no_panic (s : Str) (cause : Cause) : pValue s ≠ .panic cause := by
+  unfold pValue
+  cases s with
+  | nil => simp
+  | cons c cs =>
+    simp only
+    split
+    · cases hr : lexString (c :: cs) with
+      | panic c' => exact absurd hr (lexString_no_panic h1 _ _)
+      | ok u => simp
+      | fail => simp
+      | unsup => simp
+    · cases lexIdent (c :: cs) with
+      | some r => simp
+      | none => simp only; split <;> simp
+
+theorem pItem_no_panic (s : Str) (cause : Cause) : pItem s ≠ .panic cause := by
+  unfold pItem
+  cases hn : pName s with
+  | panic c' => exact absurd hn (pName_no_panic h1 _ _)
+  | unsup => simp
+  | ok nr =>
+    simp only
+    cases slotDiv nr.2 with
+    | none => simp
+    | some r2 =>
+      simp only
+      cases hv : pValue r2 with
+      | panic c' => exact absurd hv (pValue_no_panic h1 _ _)
+      | ok v => simp
+      | fail => simp
+      | unsup => simp
+  | fail =>
+    simp only
+    cases hv : pValue s with
+    | panic c' => exact absurd hv (pValue_no_panic h1 _ _)
+    | ok v => simp
+    | fail => simp
+    | unsup => simp
+
+theorem loopEnd_no_panic (acc : Option PSt) (a : Bool) (s : Str) (cause : Cause) : loopEnd acc a s ≠ .panic cause := by
+  unfold loopEnd; cases acc <;> simp
+
+theorem itemsLoop_no_panic (fuel : Nat) (acc : Option PSt) (a : Bool) (s : Str) (cause : Cause) :
+    itemsLoop fuel acc a s ≠ .panic cause := by
+  induction fuel generalizing acc a s with
+  | zero => simp [itemsLoop]
+  | succ n ih =>
+    unfold itemsLoop
+    cases hi : pItem (skipMulti s) with
+    | panic c' => exact absurd hi (pItem_no_panic h1 _ _)
+    | unsup => simp
+    | noItem =>
+      simp only
+      cases skipSpace (skipMulti s) with
+      | nil => exact loopEnd_no_panic h1 _ _ _ _
+      | cons c r' =>
+        simp only
+        split
+        · exact ih _ _ _
+        · exact loopEnd_no_panic h1 _ _ _ _
+    | valueItem r =>
+      simp only
+      cases skipSpace r with
+      | nil => exact loopEnd_no_panic h1 _ _ _ _
+      | cons c r' =>
+        simp only
+        split
+        · exact ih _ _ _
+        · split
+          · exact ih _ _ _
+          · exact loopEnd_no_panic h1 _ _ _ _
+    | slot nm v r =>
+      simp only
+      cases skipSpace r with
+      | nil => exact loopEnd_no_panic h1 _ _ _ _
+      | cons c r' =>
+        simp only
+        split
+        · cases applySlot acc nm v with
+          | none => simp
+          | some acc' => exact ih _ _ _
+        · split
+          · cases applySlot acc nm v with
+            | none => simp
+            | some acc' => exact ih _ _ _
+          · exact loopEnd_no_panic h1 _ _ _ _
+
+theorem finalItem_no_panic (p : PSt) (a : Bool) (s : Str) (cause : Cause) : finalItem p a s ≠ .panic cause := by
+  unfold finalItem
+  cases hi : pItem (skipMulti s) with
+  | panic c' => exact absurd hi (pItem_no_panic h1 _ _)
+  | unsup => simp
+  | noItem => simp only; split <;> simp
+  | valueItem r => simp
+  | slot nm v r =>
+    simp only
+    cases applySlot (some p) nm v with
+    | none => simp
+    | some o => cases o <;> simp
+
+theorem pParen_no_panic (s : Str) (cause : Cause) : pParen s ≠ .panic cause := by
+  unfold pParen
+  cases s with
+  | nil => simp
+  | cons c r =>
+    simp only
+    split
+    · cases hl : itemsLoop (r.length + 2) (some {}) true r with
+      | panic c' => exact absurd hl (itemsLoop_no_panic h1 _ _ _ _ _)
+      | fail => simp
+      | unsup => simp
+      | ok p a r1 =>
+        simp only
+        cases hf : finalItem p a r1 with
+        | panic c' => exact absurd hf (finalItem_no_panic h1 _ _ _ _)
+        | fail => simp
+        | unsup => simp
+        | ok p' r2 =>
+          simp only
+          cases skipMulti r2 with
+          | nil => simp
+          | cons d r3 => simp only; split <;> simp
+    · simp
+
+include h2
+
+theorem parseTextToken_no_panic (s : Str) (cause : Cause) : parseTextToken s ≠ .panic cause := by
+  unfold parseTextToken
+  cases lexIdent (skipSpace s) with
+  | some r => simp only; split <;> simp
+  | none =>
+    simp only
+    cases skipSpace s with
+    | nil => simp [h2]
+    | cons c cs =>
+      simp only
+      split
+      · cases scanStr false cs with
+        | none => simp [h2]
+        | some r =>
+          simp only
+          cases hr : resolveEscapes r.1 with
+          | panic c' => exact absurd hr (resolveEscapes_no_panic h1 _ _)
+          | ok u => simp only; split <;> simp
+          | fail => simp
+          | unsup => simp
+      · simp
+
+theorem done_no_panic (k : RKind) (p : PSt) (body : Str) (cause : Cause) : done k p body ≠ .panic cause := by
+  unfold done
+  cases k with
+  | auth => simp
+  | deauth => simp
+  | k kind =>
+    simp only
+    cases p.node with
+    | none => simp
+    | some n =>
+      cases p.lane with
+      | none => simp
+      | some l =>
+        simp only
+        cases hn : parseTextToken n with
+        | panic c' => exact absurd hn (parseTextToken_no_panic h1 h2 _ _)
+        | err => simp
+        | ok n' =>
+          simp only
+          cases hl : parseTextToken l with
+          | panic c' => exact absurd hl (parseTextToken_no_panic h1 h2 _ _)
+          | err => simp
+          | ok l' => simp
+
+theorem peel_no_panic (s : Str) (cause : Cause) : peel s ≠ .panic cause := by
+  unfold peel
+  cases s with
+  | nil => simp
+  | cons c r =>
+    simp only
+    split
+    · cases hn : pName r with
+      | panic c' => exact absurd hn (pName_no_panic h1 _ _)
+      | fail => simp
+      | unsup => simp
+      | ok nr =>
+        simp only
+        cases tagKind nr.1 with
+        | none => simp
+        | some k =>
+          simp only
+          cases hp : pParen nr.2 with
+          | panic c' => exact absurd hp (pParen_no_panic h1 _ _)
+          | unsup => simp
+          | ok p r2 => exact done_no_panic h1 h2 _ _ _ _
+          | fail => exact done_no_panic h1 h2 _ _ _ _
+    · simp
+
+end NoPanic
+end SwimVerif.Envelope
